@@ -16,8 +16,8 @@
                                       Err:  dropped++ ; worker_dropped[w]++ ; return Dropped
      TLS   hash_flow = None: dropped++ ; return Dropped
            Some w: as HTTP
-   worker_loop: receive one packet, analyse it; the HTTP worker increments the *same*
-   worker_dropped[w] cell (the Arc is shared with the pool) when the analysis returns Err.
+   worker_loop: receive one packet, analyse it; no counter is touched, whatever the analysis
+   returns (since fix 93cdf08 also in the HTTP pool: worker_dropped[w] is written by dispatch only).
    The answer of the channel to try_send is an input of the transition (`full`), so the accounting
    theorem holds whatever the channel answers (capacity 0 rendezvous, Disconnected, ...); the
    executable schedule runner below supplies the answer of a bounded FIFO of capacity `cap`.
@@ -136,12 +136,8 @@ Section Pool.
         | None => x
         | Some s =>
             let '(s', err) := analyse s p in
-            let cw := match kind with
-                      | PHttp => if err then upd (c_wdropped x) w (nth w (c_wdropped x) 0 + 1) else c_wdropped x
-                      | _ => c_wdropped x
-                      end in
             {| queues := upd (queues x) w rest; wstates := upd (wstates x) w s'; pcs := pcs x;
-               c_dispatched := c_dispatched x; c_dropped := c_dropped x; c_wdropped := cw;
+               c_dispatched := c_dispatched x; c_dropped := c_dropped x; c_wdropped := c_wdropped x;
                calls := calls x; rets := rets x; analysed := analysed x ++ [(w, p, err)] |}
         end
     end.
@@ -181,9 +177,6 @@ Section Pool.
     N.of_nat (length (filter (fun r => match r_worker r with None => true | Some _ => false end) (rets x))).
   Definition queued_packets (x : pstate) : list P := map r_pkt (filter r_queued (rets x)).
   Definition analysed_packets (x : pstate) : list P := map (fun a => snd (fst a)) (analysed x).
-  Definition errors_at (x : pstate) (w : nat) : N :=
-    N.of_nat (length (filter (fun a => snd a && Nat.eqb (fst (fst a)) w) (analysed x))).
-
   (* the counters of `stats()` agree with the outcomes the dispatch calls returned *)
   Definition stats_agree_b (nworkers : nat) (x : pstate) : bool :=
     (c_dropped x =? n_dropped x) &&
@@ -196,11 +189,6 @@ Section Pool.
     | PHttp => c_dispatched x =? calls x
     | PTls => c_dispatched x + n_discarded x =? calls x
     end.
-
-  (* known defect class (open): an HTTP worker analysed a queued packet and the analysis returned
-     Err; it is added to the per-worker *dropped* statistic although dispatch reported Queued *)
-  Definition http_error_counted (x : pstate) : bool :=
-    match kind with PHttp => existsb (fun a => snd a) (analysed x) | _ => false end.
 
   (* ---- an executable scheduler for the case interpreter: one dispatcher, bounded FIFO ---- *)
   (* runs dispatch(p) to completion on thread 0, the channel answering as a bounded queue of
